@@ -35,6 +35,24 @@ def _split(ev):
     return runs, starts
 
 
+def _project(runs):
+    """A trace recorded on two pools that name the same policy (main + candidate pool of one Proxy, or the pools of two
+    Proxy filters of one pipeline) is judged pool by pool: the breaker contract is a statement about every breaker and
+    its own call history, so the history of each pool - its own requests, and the time that passed for all of them -
+    must be a behaviour of the pool-level contract on its own."""
+    out = []
+    for ri, r in enumerate(runs):
+        pools = sorted({e["pool"] for e in r if e.get("ev") == "req" and "pool" in e})
+        if r[0].get("variant", "single") == "single" or len(pools) < 2:
+            out.append(r)
+            continue
+        for x in pools:
+            head = dict(r[0])
+            head["pool"], head["rec"] = x, ri
+            out.append([head] + [e for e in r[1:] if e.get("ev") != "req" or e.get("pool") == x])
+    return out
+
+
 def run_proxy(ctx):
     ctx.assumptions += ["pool level: the breaker's recorded results are read from its own window total (reflection), its clock is real "
                         "time; waits are one-sided (the harness sleeps longer than waitDurationInOpenState; a trace in which requests "
@@ -52,6 +70,8 @@ def run_proxy(ctx):
     if rc != 0 or not ev:
         ctx.inconclusive("C08 pool harness failed:\n" + out[-3000:])
     runs, _ = _split(ev)
+    nrec = len(runs)
+    runs = _project(runs)
     if any(e.get("ev") == "rejected" for r in runs for e in r):
         ctx.inconclusive("C08 pool harness could not build a pool: %s" % jdump([e for r in runs for e in r if e.get("ev") == "rejected"][0]))
     good = [r for r in runs if not r[0].get("tainted")]
@@ -63,7 +83,7 @@ def run_proxy(ctx):
         flat.extend(r)
     tp = ctx.write_ndjson("c08_pool_trace.ndjson", flat)
     tr = ctx.tlc_trace("CircuitBreakerPool_Trace", TRACE_CFG, tp, timeout=900)
-    ctx.evals(len(runs))
+    ctx.evals(nrec)
     if not tr.accepted:
         if tr.inv:
             i = max(j for j, s in enumerate(starts) if s <= tr.hwm)
@@ -83,13 +103,34 @@ def run_proxy(ctx):
             why = "admitted-while-open"
         else:
             why = "records-or-state"
-        ctx.violation({"kind": "pool", "why": why, "stream": e.get("stream"), "retry": good[i][0].get("retry")},
-                      "pool-level request %s after breaker state %r is not what the breaker contract allows (policy %s, retry policy %s)"
+        variant = good[i][0].get("variant", "single")
+        sig = {"kind": "pool", "why": why, "stream": e.get("stream"), "retry": good[i][0].get("retry")}
+        shared = ""
+        if variant != "single":
+            sig["pools"] = variant
+            shared = (" - on its own history: pool %r of two pools naming the same circuitBreakerPolicy (%s)"
+                      % (good[i][0].get("pool"), "main and candidate pool of one Proxy" if variant == "cand" else "two Proxy filters"))
+        ctx.violation(sig,
+                      "pool-level request %s after breaker state %r is not what the breaker contract allows (policy %s, retry policy %s)%s"
                       % (jdump({k: v for k, v in e.items() if k != "seq"}), prev.get("s", "closed"), jdump(good[i][0]["pol"]),
-                         good[i][0].get("retry")), good[i][:idx + 1])
+                         good[i][0].get("retry"), shared), good[i][:idx + 1])
     okruns = [r for j, r in enumerate(good) if j not in bad]
     ctx.traces(len(okruns))
-    st = {"sc_stream": 0, "sc_buffered": 0, "sc_retry": 0, "admitted_retried": 0, "halfopen": 0, "waits_elapsed": 0}
+    st = {"sc_stream": 0, "sc_buffered": 0, "sc_retry": 0, "admitted_retried": 0, "halfopen": 0, "waits_elapsed": 0,
+          "two_pools_one_policy": 0, "sibling_opened_while_this_stayed_closed": 0}
+    # two pools naming one policy: the histories in which one pool's breaker opened while the other's, all of whose own
+    # calls had passed, kept admitting (what per-breaker windows mean)
+    byrec = {}
+    for r in okruns:
+        if "pool" in r[0]:
+            byrec.setdefault(r[0]["rec"], []).append(r)
+    for rs in byrec.values():
+        if len(rs) == 2:
+            st["two_pools_one_policy"] += 1
+            for x, y in ((rs[0], rs[1]), (rs[1], rs[0])):
+                if any(e.get("s") == "open" for e in x) and all(e.get("s") == "closed" for e in y if e.get("ev") == "req") \
+                        and sum(1 for e in y if e.get("ev") == "req") >= 3:
+                    st["sibling_opened_while_this_stayed_closed"] += 1
     for r in okruns:
         for e in r[1:]:
             if e.get("res") == "shortCircuited":
@@ -106,7 +147,8 @@ def run_proxy(ctx):
             ctx.nontrivial({"pool": r[0]["pol"], "ev": [(e.get("res"), e.get("k"), e.get("stream")) for e in r[1:]]})
     ctx.cov["c08_pool_stats"] = st
     ctx.log("pool level: %d traces validated, %d rejected, %d discarded; %s" % (len(okruns), len(bad), len(runs) - len(good), jdump(st)))
-    if not bad and (st["sc_stream"] == 0 or st["sc_buffered"] == 0 or st["sc_retry"] == 0 or st["admitted_retried"] == 0):
+    if not bad and (st["sc_stream"] == 0 or st["sc_buffered"] == 0 or st["sc_retry"] == 0 or st["admitted_retried"] == 0
+                    or st["sibling_opened_while_this_stayed_closed"] == 0):
         ctx.inconclusive("vacuous pool-level run: %s" % jdump(st))
     if okruns:
         ctx.sample({"kind": "pool-level trace", "events": okruns[0][:8]})
